@@ -48,6 +48,7 @@ impl Jaccard {
     pub fn similarity(&mut self, slice1: &[char], slice2: &[char]) -> (ret: f64)
         requires slice1@.len() <= 0x4000_0000, slice2@.len() <= 0x4000_0000,
     {
+        broadcast use lemma_dedup_len;
         match (slice1.len(), slice2.len()) {
             (0, 0) => return 1.0,
             (0, _) => return 0.0,
@@ -62,9 +63,6 @@ impl Jaccard {
         set2.copy_from_slice(&slice2);
         set1.sort_unstable();
         set2.sort_unstable();
-        let ghost sorted1 = set1@;
-        let ghost sorted2 = set2@;
-        proof { lemma_dedup_len(sorted1); lemma_dedup_len(sorted2); }
         set1.dedup();
         set2.dedup();
         simple_similarity(&set1, &set2)
@@ -76,7 +74,9 @@ impl Jaccard {
         1.0 - self.similarity(slice1, slice2)
     }
 }
-proof fn lemma_dedup_len(s: Seq<char>)
-    ensures dedup_spec(s).len() <= s.len()
+// whatever is sorted / de-duplicated, and however often: lengths never grow (the safety proof must not depend on
+// *which* buffer each call touches)
+broadcast proof fn lemma_dedup_len(s: Seq<char>)
+    ensures #[trigger] dedup_spec(s).len() <= s.len()
     decreases s.len()
 { if s.len() > 1 { lemma_dedup_len(s.drop_last()); } }
